@@ -226,12 +226,14 @@ func emit(r *core.Run, mode string, into any) error {
 }
 
 type dcall struct {
-	Method string     `json:"method"`
-	HasReq bool       `json:"hasReq"`
-	Req    M          `json:"req,omitempty"`
-	Params M          `json:"params,omitempty"`
-	Keys   [][]string `json:"keys"`
-	Resp   *dresp     `json:"resp,omitempty"`
+	Method  string     `json:"method"`
+	Hook    string     `json:"hook,omitempty"`
+	ReqType string     `json:"reqType,omitempty"`
+	HasReq  bool       `json:"hasReq"`
+	Req     M          `json:"req,omitempty"`
+	Params  M          `json:"params,omitempty"`
+	Keys    [][]string `json:"keys"`
+	Resp    *dresp     `json:"resp,omitempty"`
 }
 
 type dresp struct {
@@ -240,16 +242,17 @@ type dresp struct {
 }
 
 type dres struct {
-	Outcome  string `json:"outcome"`
-	Status   int    `json:"status"`
-	Handler  bool   `json:"handler"`
-	HArgs    []M    `json:"hargs"`
-	MwSeen   bool   `json:"mwSeen"`
-	MwBody   M      `json:"mwBody"`
-	MwParams []M    `json:"mwParams"`
-	RType    string `json:"rtype"`
-	RVal     M      `json:"rval"`
-	Err      string `json:"err"`
+	Outcome  string   `json:"outcome"`
+	Status   int      `json:"status"`
+	Handler  bool     `json:"handler"`
+	HArgs    []M      `json:"hargs"`
+	HTypes   []string `json:"htypes"`
+	MwSeen   bool     `json:"mwSeen"`
+	MwBody   M        `json:"mwBody"`
+	MwParams []M      `json:"mwParams"`
+	RType    string   `json:"rtype"`
+	RVal     M        `json:"rval"`
+	Err      string   `json:"err"`
 }
 
 // meta says how one driver call becomes an observation line.
@@ -260,7 +263,104 @@ type meta struct {
 	sent  M
 	resp  M // resp vector
 	descr string
+	med   *mediaCase
 }
+
+// ---- bodies with several media entries, a second response declaration, a webhook ---------
+
+// mediaVariant is one declared media entry of an operation's body as the generated package
+// spells it: the request and the response type of the variant and whether each carries a
+// content type field of its own.
+type mediaVariant struct {
+	e                [2]string
+	reqType, resType string
+	reqCT, resCT     bool
+	json             bool
+}
+
+type mediaOp struct {
+	method   string
+	D        [][2]string
+	variants []mediaVariant
+}
+
+var mtJSON, mtText, mtImage = [2]string{"application", "json"}, [2]string{"text", "plain"}, [2]string{"image", "*"}
+
+var mediaOps = []mediaOp{
+	{"Neg", [][2]string{mtJSON, mtText}, []mediaVariant{
+		{e: mtJSON, reqType: "NMsg", resType: "NMsg", json: true},
+		{e: mtText, reqType: "NegReqTextPlain", resType: "NegOKTextPlain"}}},
+	{"Mask", [][2]string{mtImage}, []mediaVariant{
+		{e: mtImage, reqType: "MaskReqWithContentType", resType: "MaskOKHeaders", reqCT: true, resCT: true}}},
+	{"Negmask", [][2]string{mtJSON, mtImage}, []mediaVariant{
+		{e: mtJSON, reqType: "NMsg", resType: "NMsgHeaders", resCT: true, json: true},
+		{e: mtImage, reqType: "NegmaskReqImageWithContentType", resType: "NegmaskOKImageHeaders", reqCT: true, resCT: true}}},
+}
+
+type mediaCase struct {
+	op      *mediaOp
+	dir     string // req | resp
+	v       mediaVariant
+	ct      string // the media type the value travels as
+	payload string
+}
+
+func splitMT(ct string) []string {
+	if i := strings.IndexByte(ct, '/'); i >= 0 {
+		return []string{ct[:i], ct[i+1:]}
+	}
+	return []string{ct, ""}
+}
+
+// mediaValue builds the tagged value of one variant: the payload in its Msg / Data member,
+// wrapped with the content type when the generated type has the field.
+func mediaValue(v mediaVariant, hasCT bool, inner, ct, payload string) M {
+	var body M
+	if v.json {
+		body = M{"t": "objn", "m": []any{[]any{"Msg", strOf(payload)}}}
+	} else {
+		body = M{"t": "objn", "m": []any{[]any{"Data", strOf(payload)}}}
+	}
+	if !hasCT {
+		return body
+	}
+	return M{"t": "objn", "m": []any{[]any{"ContentType", strOf(ct)}, []any{inner, body}}}
+}
+
+// mediaParts reads a projected variant back: its content type member (if any) and the payload.
+func mediaParts(v M) (ct string, hasCT bool, payload M) {
+	payload = absent
+	var walk func(x M)
+	walk = func(x M) {
+		if x == nil || x["t"] != "objn" {
+			return
+		}
+		for _, m := range x["m"].([]any) {
+			kv := m.([]any)
+			val, _ := kv[1].(M)
+			switch kv[0] {
+			case "ContentType":
+				ct, hasCT = bytesToString(val), true
+			case "Msg", "Data":
+				payload = val
+			default:
+				walk(val)
+			}
+		}
+	}
+	walk(v)
+	return
+}
+
+var typeEntry = map[string][2]string{
+	"*api.NMsg": mtJSON, "*api.NMsgHeaders": mtJSON,
+	"*api.NegReqTextPlain": mtText, "*api.NegOKTextPlain": mtText,
+	"*api.MaskReqWithContentType": mtImage, "*api.MaskOKHeaders": mtImage,
+	"*api.NegmaskReqImageWithContentType": mtImage, "*api.NegmaskOKImageHeaders": mtImage,
+}
+
+var resp2Decl = M{"exact": []int{200, 404}, "pats": []int{4}, "dflt": false}
+var resp2Variant = map[string]M{"*api.NMsg": {"kind": "code", "n": 200}, "*api.E404": {"kind": "code", "n": 404}, "*api.F4StatusCode": {"kind": "pat", "n": 4}}
 
 // Prepared is the regenerated package with its driver and the call list.
 type Prepared struct {
@@ -351,13 +451,40 @@ func Prepare(r *core.Run, extra, race bool) (*Prepared, error) {
 	paths["/bodyopt"] = M{"post": M{"operationId": "bodyopt", "requestBody": M{"required": false, "content": jsonOf("Body")}, "responses": M{"200": M{"description": "ok"}}}}
 	octets := M{"application/octet-stream": M{"schema": M{"type": "string", "format": "binary"}}}
 	paths["/stream"] = M{"post": M{"operationId": "stream", "requestBody": M{"required": true, "content": octets}, "responses": M{"200": M{"description": "ok", "content": octets}}}}
+	// bodies that declare several media entries (exact and mask), in both directions
+	mediaContent := func(entries ...string) M {
+		c := M{}
+		for _, e := range entries {
+			switch e {
+			case "application/json":
+				c[e] = M{"schema": M{"$ref": "#/components/schemas/NMsg"}}
+			case "text/plain":
+				c[e] = M{"schema": M{"type": "string"}}
+			default:
+				c[e] = M{"schema": M{"type": "string", "format": "binary"}}
+			}
+		}
+		return c
+	}
+	for id, entries := range map[string][]string{"neg": {"application/json", "text/plain"}, "mask": {"image/*"}, "negmask": {"application/json", "image/*"}} {
+		paths["/"+id] = M{"post": M{"operationId": id, "requestBody": M{"required": true, "content": mediaContent(entries...)},
+			"responses": M{"200": M{"description": "ok", "content": mediaContent(entries...)}}}}
+	}
+	// a response declaration with an exact code inside a declared class and no default
+	paths["/resp2"] = M{"get": M{"operationId": "resp2", "responses": M{
+		"200": M{"description": "ok", "content": jsonOf("NMsg")}, "404": M{"description": "nf", "content": jsonOf("E404")}, "4XX": M{"description": "ce", "content": jsonOf("F4")}}}}
+	webhooks := M{"onEvent": M{"post": M{"operationId": "onEvent", "parameters": []any{
+		M{"name": "X-H", "in": "header", "required": true, "schema": M{"type": "string"}},
+		M{"name": "q", "in": "query", "required": false, "schema": M{"type": "array", "items": M{"type": "string"}}}},
+		"requestBody": M{"required": true, "content": jsonOf("NMsg")}, "responses": M{"200": M{"description": "ok", "content": jsonOf("NMsg")}}}}}
 	if extra {
 		paths["/vbody"] = M{"post": M{"operationId": "vbody", "requestBody": M{"required": true, "content": jsonOf("VBody")}, "responses": M{"200": M{"description": "ok", "content": jsonOf("VBody")}}}}
 	}
 	msg := func() M {
 		return M{"type": "object", "required": []string{"msg"}, "properties": M{"msg": M{"type": "string"}}}
 	}
-	doc, _ := json.Marshal(M{"openapi": "3.0.3", "info": M{"title": "t", "version": "1"}, "paths": paths, "components": M{"schemas": M{
+	doc, _ := json.Marshal(M{"openapi": "3.1.0", "info": M{"title": "t", "version": "1"}, "paths": paths, "webhooks": webhooks, "components": M{"schemas": M{
+		"NMsg": msg(), "E404": msg(), "F4": msg(),
 		"Body": M{"type": "object", "required": []string{"n"}, "properties": orderedProps{{"n", M{"type": "integer"}}, {"s", M{"type": "string", "default": "sd"}},
 			{"on", M{"type": "string", "nullable": true}}, {"l", M{"type": "array", "items": M{"type": "integer"}}}}},
 		"R200": msg(), "E4": msg(), "ED": msg(),
@@ -487,6 +614,68 @@ func Prepare(r *core.Run, extra, race bool) (*Prepared, error) {
 			Resp: &dresp{"StreamOK", M{"t": "objn", "m": []any{[]any{"Data", strOf("reply:" + data)}}}}})
 		metas = append(metas, meta{kind: "stream", vary: -1, sent: strOf(data), resp: strOf("reply:" + data)})
 	}
+	// ---- media variants: one direction varies per call, the other carries a fixed plain value
+	jsonPayloads := []string{"m", "", "\u00e9 \"q\" \\ \n"}
+	dataPayloads := []string{"x", "", "\x00\xff\r\n bin \x80", "\u00e9"}
+	for oi := range mediaOps {
+		mo := &mediaOps[oi]
+		plain := mo.variants[0]
+		plainCT := plain.e[0] + "/" + plain.e[1]
+		if plain.e == mtImage {
+			plainCT = "image/png"
+		}
+		for _, v := range mo.variants {
+			payloads := dataPayloads
+			if v.json {
+				payloads = jsonPayloads
+			}
+			own := v.e[0] + "/" + v.e[1]
+			for _, dir := range []string{"req", "resp"} {
+				hasCT := v.reqCT
+				if dir == "resp" {
+					hasCT = v.resCT
+				}
+				cts := []string{own}
+				if hasCT && v.e == mtImage {
+					cts = []string{"image/png", "image/svg+xml", "text/plain", "", "application/json", "image/*"}
+				} else if hasCT {
+					cts = []string{own, "", "image/png", "text/plain"}
+				}
+				for _, ct := range cts {
+					for _, pl := range payloads {
+						mc := &mediaCase{op: mo, dir: dir, v: v, ct: ct, payload: pl}
+						c := dcall{Method: mo.method, HasReq: true, Keys: [][]string{}}
+						if dir == "req" {
+							c.ReqType, c.Req = v.reqType, mediaValue(v, v.reqCT, "Content", ct, pl)
+							c.Resp = &dresp{plain.resType, mediaValue(plain, plain.resCT, "Response", plainCT, "fixed")}
+						} else {
+							c.ReqType, c.Req = plain.reqType, mediaValue(plain, plain.reqCT, "Content", plainCT, "fixed")
+							c.Resp = &dresp{v.resType, mediaValue(v, v.resCT, "Response", ct, pl)}
+						}
+						calls = append(calls, c)
+						metas = append(metas, meta{kind: "media", vary: -1, med: mc})
+					}
+				}
+			}
+		}
+	}
+	// ---- the second response declaration
+	for _, k := range []int{0, 100, 200, 204, 302, 400, 404, 418, 499, 500, 599} {
+		calls = append(calls, dcall{Method: "Resp2", Keys: [][]string{}, Resp: &dresp{"F4StatusCode", M{"t": "objn", "m": []any{[]any{"StatusCode", M{"t": "int", "n": k}}, []any{"Response", msgOf("f4")}}}}})
+		metas = append(metas, meta{kind: "respd", vary: -1, resp: M{"v": M{"kind": "pat", "n": 4}, "k": k, "msg": "f4"}})
+	}
+	calls = append(calls, dcall{Method: "Resp2", Keys: [][]string{}, Resp: &dresp{"NMsg", msgOf("n200")}}, dcall{Method: "Resp2", Keys: [][]string{}, Resp: &dresp{"E404", msgOf("e404")}})
+	metas = append(metas, meta{kind: "respd", vary: -1, resp: M{"v": M{"kind": "code", "n": 200}, "k": 0, "msg": "n200"}}, meta{kind: "respd", vary: -1, resp: M{"v": M{"kind": "code", "n": 404}, "k": 0, "msg": "e404"}})
+	// ---- the webhook: header + query parameter, JSON body, JSON response
+	for _, xh := range []string{"h", "a-b", "a,b", "\u00e9"} {
+		for _, q := range []M{{"t": "nil"}, {"t": "arr", "v": []any{strOf("x")}}, {"t": "arr", "v": []any{strOf("x"), strOf("y z")}}, {"t": "arr", "v": []any{strOf("a&b=c")}}} {
+			for _, body := range []string{"m", "\u00e9\n"} {
+				calls = append(calls, dcall{Method: "OnEvent", Hook: "onEvent", HasReq: true, Req: msgOf(body), Params: M{"t": "objn", "m": []any{[]any{"XH", strOf(xh)}, []any{"Q", q}}},
+					Keys: [][]string{{"X-H", "header"}, {"q", "query"}}, Resp: &dresp{"NMsg", msgOf("re:" + body)}})
+				metas = append(metas, meta{kind: "hook", vary: -1, sent: M{"xh": strOf(xh), "q": q, "body": strOf(body)}, resp: strOf("re:" + body), descr: fmt.Sprintf("X-H=%q q=%s body=%q", xh, show(q), body)})
+			}
+		}
+	}
 	return &Prepared{Bin: bin, Calls: calls, metas: metas, ops: ops}, nil
 }
 
@@ -497,7 +686,7 @@ func Check(r *core.Run) error {
 		"Conformance: one document (operations per location x group required/optional/default, a body operation, a response operation with 200+header, 201, 4XX, default) is regenerated from /repo as client and server; the generated client calls the generated server in process; a recording handler, a middleware and the caller's result are projected by reflection and judged by TLC, one parameter varying per call. " +
 		"Non-trivial = every call; distinct = (kind, row, outcome).")
 	res, err := tlc.Run(nil, tlc.Options{SpecDir: obs.SpecDir, Module: "ExchangeMC", Timeout: 10 * time.Minute, Scratch: r.Scratch, Workers: 8,
-		Cfg: tlc.Cfg("INIT Init", "NEXT Next", "INVARIANTS Routing Misrouted CoreCarried", "CHECK_DEADLOCK FALSE")})
+		Cfg: tlc.Cfg("INIT Init", "NEXT Next", "INVARIANTS Routing Misrouted CoreCarried Generalises", "CHECK_DEADLOCK FALSE")})
 	if err != nil {
 		return err
 	}
@@ -616,6 +805,114 @@ func Check(r *core.Run) error {
 			line = M{"kind": "form", "sent": mt.sent, "outcome": res.Outcome, "got": got, "mwgot": mwgot}
 			desc = append(desc, fmt.Sprintf("%s body given %s -> %s status %d handler saw %s middleware saw %s %s", mt.descr, show(mt.sent), res.Outcome, res.Status, show(got), show(mwgot), res.Err))
 			r.Nontrivial("form|" + mt.descr + "|" + res.Outcome)
+		case "media":
+			mc := mt.med
+			e2, ct2, payload2 := []string{"", ""}, []string{"", ""}, absent
+			var seen M
+			var seenType string
+			outcome := res.Outcome
+			if mc.dir == "req" {
+				// the handler's view of the request decides; a handler that ran is "ok" whatever came back
+				if res.Handler && len(res.HArgs) == 1 && len(res.HTypes) == 1 {
+					seen, seenType, outcome = res.HArgs[0], res.HTypes[0], "ok"
+				} else if res.Outcome == "ok" {
+					outcome = "answered_without_handler"
+				}
+			} else if res.Outcome == "ok" {
+				seen, seenType = res.RVal, res.RType
+			}
+			if seen != nil {
+				ent, ok := typeEntry[seenType]
+				if !ok {
+					return fmt.Errorf("%w: media: unknown variant type %s", tlc.ErrInfra, seenType)
+				}
+				e2 = ent[:]
+				ct, hasCT, pl := mediaParts(seen)
+				payload2 = pl
+				if hasCT {
+					ct2 = splitMT(ct)
+				} else {
+					ct2 = e2
+				}
+			}
+			D := [][]string{}
+			for _, d := range mc.op.D {
+				D = append(D, []string{d[0], d[1]})
+			}
+			line = M{"kind": "media", "dir": mc.dir, "D": D, "e": mc.v.e[:], "ct": splitMT(mc.ct), "payload": strOf(mc.payload), "outcome": outcome, "e2": e2, "ct2": ct2, "payload2": payload2}
+			desc = append(desc, fmt.Sprintf("%s %s body: variant %s/%s travelling as %q payload %q -> %s status %d, seen as %s type %s/%s payload %s %s", mc.op.method, mc.dir, mc.v.e[0], mc.v.e[1], mc.ct, mc.payload, outcome, res.Status, seenType, ct2[0], ct2[1], show(payload2), res.Err))
+			r.Nontrivial(fmt.Sprintf("media|%s|%s|%s/%s|%s", mc.op.method, mc.dir, mc.v.e[0], mc.v.e[1], outcome))
+			r.CovAdd("media_"+mc.dir+"_"+outcome, 1)
+		case "respd":
+			rv := mt.resp
+			v2, k2, msg2 := M{"kind": "none", "n": 0}, float64(0), ""
+			if res.Outcome == "ok" {
+				var ok bool
+				if v2, ok = resp2Variant[res.RType]; !ok {
+					v2 = M{"kind": "unknown:" + res.RType, "n": 0}
+				}
+				var walk func(x M)
+				walk = func(x M) {
+					if x == nil || x["t"] != "objn" {
+						return
+					}
+					for _, m := range x["m"].([]any) {
+						kv := m.([]any)
+						switch kv[0] {
+						case "StatusCode":
+							k2 = toF(kv[1].(M)["n"])
+						case "Msg":
+							msg2 = bytesToString(kv[1].(M))
+						default:
+							walk(kv[1].(M))
+						}
+					}
+				}
+				walk(res.RVal)
+			}
+			line = M{"kind": "respd", "d": resp2Decl, "v": rv["v"], "k": rv["k"], "msg": rv["msg"], "outcome": res.Outcome, "v2": v2, "k2": k2, "msg2": msg2}
+			desc = append(desc, fmt.Sprintf("resp2 (200, 404, 4XX declared): handler returned %v code %v -> caller: %s status on the wire %d got %v code %v %q %s", rv["v"], rv["k"], res.Outcome, res.Status, v2, k2, msg2, res.Err))
+			r.Nontrivial(fmt.Sprintf("respd|%v|%s", rv["v"].(M)["kind"], res.Outcome))
+			r.CovAdd("second_response_declaration_"+res.Outcome, 1)
+		case "hook":
+			nothing := func(v M) M {
+				if v == nil || v["t"] == "absent" || v["t"] == "nil" {
+					return M{"t": "nil"}
+				}
+				if v["t"] == "arr" && len(v["v"].([]any)) == 0 {
+					return M{"t": "nil"}
+				}
+				return v
+			}
+			sentp := []any{mt.sent["xh"], nothing(mt.sent["q"].(M))}
+			gotp, mwp := []any{absent, absent}, []any{absent, absent}
+			gotb, mwb, rgot := absent, absent, absent
+			field := func(v M, name string) M {
+				if v != nil && v["t"] == "objn" {
+					for _, m := range v["m"].([]any) {
+						if kv := m.([]any); kv[0] == name {
+							return kv[1].(M)
+						}
+					}
+				}
+				return absent
+			}
+			if res.Handler && len(res.HArgs) == 2 {
+				gotb = field(res.HArgs[0], "Msg")
+				gotp = []any{field(res.HArgs[1], "XH"), nothing(field(res.HArgs[1], "Q"))}
+				if res.MwSeen && len(res.MwParams) == 2 {
+					mwp = []any{res.MwParams[0], nothing(res.MwParams[1])}
+					mwb = field(res.MwBody, "Msg")
+				}
+			}
+			if res.Outcome == "ok" {
+				rgot = field(res.RVal, "Msg")
+			}
+			core := !strings.Contains(bytesToString(mt.sent["xh"].(M)), ",")
+			line = M{"kind": "hook", "sentp": sentp, "gotp": gotp, "mwp": mwp, "sentb": mt.sent["body"], "gotb": gotb, "mwb": mwb, "rsent": mt.resp, "rgot": rgot, "outcome": res.Outcome, "core": core}
+			desc = append(desc, fmt.Sprintf("webhook onEvent %s -> %s status %d handler saw X-H=%s q=%s body=%s, middleware saw X-H=%s q=%s, caller got %s %s", mt.descr, res.Outcome, res.Status, show(gotp[0].(M)), show(gotp[1].(M)), show(gotb), show(mwp[0].(M)), show(mwp[1].(M)), show(rgot), res.Err))
+			r.Nontrivial("hook|" + res.Outcome)
+			r.CovAdd("webhook_"+res.Outcome, 1)
 		case "resp":
 			rv := mt.resp
 			payload := M{"hdr": rv["hdr"], "msg": map[string]string{"ok200": "m200", "created201": "", "pat4XX": "m4", "default": "md"}[rv["v"].(string)]}
@@ -739,7 +1036,7 @@ func show(v M) string {
 func glue(s *gencode.Surface) string {
 	var b strings.Builder
 	b.WriteString("package main\n\nimport (\n\t\"context\"\n\t\"net/http\"\n\t\"reflect\"\n\n\t\"github.com/ogen-go/ogen/middleware\"\n\n\tapi \"vmod/api\"\n)\n\nvar _ context.Context\n\ntype handler struct{}\n\n")
-	for _, m := range s.HandlerMethods {
+	for _, m := range append(append([]gencode.Method{}, s.HandlerMethods...), s.WebhookMethods...) {
 		args := []string{}
 		for i := range m.Types {
 			if i > 0 {
@@ -759,7 +1056,12 @@ func glue(s *gencode.Surface) string {
 		fmt.Fprintf(&b, "\ttypes[%q] = reflect.TypeOf((*api.%s)(nil)).Elem()\n", t, t)
 	}
 	b.WriteString("\tmkServer = func(mw middleware.Middleware) (http.Handler, error) { return api.NewServer(handler{}, api.WithMiddleware(passThrough, mw, passThrough)) }\n")
-	b.WriteString("\tmkClient = func(url string, c *http.Client) (any, error) { return api.NewClient(url, api.WithClient(c)) }\n}\n")
+	b.WriteString("\tmkClient = func(url string, c *http.Client) (any, error) { return api.NewClient(url, api.WithClient(c)) }\n")
+	if len(s.WebhookMethods) > 0 {
+		b.WriteString("\tmkWebhook = func(mw middleware.Middleware) (func(string) http.Handler, error) {\n\t\ts, err := api.NewWebhookServer(handler{}, api.WithMiddleware(passThrough, mw, passThrough))\n\t\tif err != nil {\n\t\t\treturn nil, err\n\t\t}\n\t\treturn s.Handler, nil\n\t}\n")
+		b.WriteString("\tmkWebhookClient = func(c *http.Client) (any, error) { return api.NewWebhookClient(api.WithClient(c)) }\n")
+	}
+	b.WriteString("}\n")
 	b.WriteString("\n// passThrough: the recording middleware sits between two others, so the generated chain\n// (middleware.ChainMiddlewares) is exercised with more than one element\n")
 	b.WriteString("func passThrough(req middleware.Request, next middleware.Next) (middleware.Response, error) { return next(req) }\n")
 	return b.String()
